@@ -302,9 +302,49 @@ type blockSite struct {
 	Desc  string
 }
 
+// spawnName names a goroutine body by the function that starts it ("go@P") when it is a
+// closure or a named function used only as the operand of go statements in one function; any
+// other function keeps its own name.
+func spawnName(p *Prog, f *ssa.Function) string {
+	if f.Parent() != nil {
+		par := f.Parent()
+		for _, sf := range goBodiesOf(par) {
+			if sf.Fn == f {
+				return "go@" + fnName(par)
+			}
+		}
+		return fnName(f)
+	}
+	cs := p.callersOf(f)
+	var from *ssa.Function
+	for _, s := range cs {
+		if s.Kind != "go" || from != nil && s.Fn != from {
+			return fnName(f)
+		}
+		from = s.Fn
+	}
+	if from != nil {
+		return "go@" + fnName(from)
+	}
+	return fnName(f)
+}
+
+func inRels(p *Prog, f *ssa.Function, rels []string) bool {
+	if f.Pkg == nil {
+		return false
+	}
+	rel := strings.TrimPrefix(strings.TrimPrefix(f.Pkg.Pkg.Path(), modPath), "/")
+	for _, r := range rels {
+		if r == rel {
+			return true
+		}
+	}
+	return false
+}
+
 // K9: frozen exceptions, one named construct each, with reason.
 var k9 = map[string]string{
-	"publisher.createSubscription$1/send/s.unsubscribech": "counted drain: publisher.run receives exactly one unsubscribe per registered subscription (in its loop or in the post-loop drain) before it may return",
+	"go@publisher.createSubscription/send/s.unsubscribech": "counted drain: publisher.run receives exactly one unsubscribe per registered subscription (in its loop or in the post-loop drain) before it may return",
 	"publisher.run/recv/s.unsubscribech":                  "counted drain: one message per registered subscription; every registered subscription's watcher sends once after the subscription is done, and every subscription is stopped by the publisher's ShuttingDown()",
 }
 
@@ -360,6 +400,37 @@ func makeChanCap(v ssa.Value, depth int) (int64, bool) {
 				}
 			}
 		}
+	case *ssa.Parameter:
+		// a private function's parameter: the smallest capacity any call site passes
+		fn := x.Parent()
+		if curProg == nil || fn == nil || fn.Parent() != nil || (fn.Object() != nil && fn.Object().Exported()) {
+			return 0, false
+		}
+		idx := -1
+		for i, p := range fn.Params {
+			if p == x {
+				idx = i
+			}
+		}
+		cs := curProg.callersOf(fn)
+		if idx < 0 || len(cs) == 0 {
+			return 0, false
+		}
+		best := int64(-1)
+		for _, site := range cs {
+			ci, ok := site.In.(ssa.CallInstruction)
+			if !ok || site.Kind == "value" || idx >= len(ci.Common().Args) {
+				return 0, false
+			}
+			n, ok := makeChanCap(ci.Common().Args[idx], depth+1)
+			if !ok {
+				return 0, false
+			}
+			if best < 0 || n < best {
+				best = n
+			}
+		}
+		return best, best >= 0
 	case *ssa.FreeVar:
 		fn := x.Parent()
 		par := fn.Parent()
@@ -546,7 +617,7 @@ func buildInventory(c *Ctx, rels []string, runs []*runInfo) []*blockSite {
 						sites = append(sites, s)
 					case *ssa.Send:
 						s := &blockSite{Fn: f, In: in, Op: "send", Desc: "send " + valPath(x.Chan)}
-						key := fnName(f) + "/send/" + valPath(x.Chan)
+						key := spawnName(c.P, f) + "/send/" + valPath(x.Chan)
 						if cp, ok := makeChanCap(x.Chan, 0); ok && cp >= 1 {
 							s.Class, s.Why = "K4", fmt.Sprintf("send on a channel made with capacity %d for a single message", cp)
 						} else if derivedFromReceive(x.Chan) {
@@ -561,6 +632,9 @@ func buildInventory(c *Ctx, rels []string, runs []*runInfo) []*blockSite {
 						}
 						s := &blockSite{Fn: f, In: in, Op: "recv", Desc: "<-" + valPath(x.X)}
 						key := fnName(f) + "/recv/" + valPath(x.X)
+						if r := isRun[f]; r != nil && r.fn != f {
+							key = fnName(r.fn) + "/recv/" + valPath(x.X) // private helper of the run function
+						}
 						rv, m := chanFromMethod(x.X)
 						_ = rv
 						switch {
@@ -981,9 +1055,19 @@ func checkJoinWaits(c *Ctx, sites []*blockSite, runs []*runInfo, kids childTable
 			why = "lifetime tie: this goroutine exists to release resources when " + target + ", the object its parent function returns to the caller, is done"
 		}
 		key := fnName(f) + "/wait-for/" + target
-		if why == "" && lcPath != "" {
+		segFn, segLC := f, lcPath
+		if lcPath == "" && f.Parent() == nil {
+			// a private helper of a run function (the shutdown tail moved into `shutdown()`):
+			// judge the wait on the run function's inlined path segments
+			for _, r := range runs {
+				if r.fn != f && c.P.ownerClosure(r.fn)[f] {
+					segFn, segLC = r.fn, r.lcPath
+				}
+			}
+		}
+		if why == "" && segLC != "" {
 			// second opinion on inlined path segments
-			if seg := waitsBySegments(c, f, lcPath, kids); seg != nil {
+			if seg := waitsBySegments(c, segFn, segLC, kids); seg != nil {
 				if v, seen := seg[s.In]; seen && v == "" {
 					why = "justified on every inlined path segment"
 				}
@@ -1038,6 +1122,8 @@ func checkGoroutineInventory(c *Ctx, rels []string, runs []*runInfo) {
 						desc, okk, why = valPath(cc.Value)+"."+m, true, "lifecycle watcher: returns when the lifecycle's ShuttingDown() closes"
 					case callee != nil && callee.Parent() != nil:
 						desc, okk, why = fnName(callee), true, "closure: its blocking operations are classified in the inventory"
+					case callee != nil && callee.Blocks != nil && inRels(c.P, callee, rels):
+						desc, okk, why = fnName(callee), true, "named goroutine body of an analysed package: its blocking operations are classified in the inventory"
 					default:
 						if callee != nil {
 							desc = fnName(callee)
@@ -1060,37 +1146,15 @@ func checkExternalCallContexts(c *Ctx) {
 	rule := "T-CTX(external)"
 	// executeList(ctx): ctx parameter comes from list()'s WithCancel(l.ctx); canceller cancels on ShuttingDown (T-SHAPE(_lister.list))
 	if fn := c.mustFunc("", "_lister.list"); fn != nil {
+		// the goroutine that calls executeList gives it the ctx of list()'s own WithCancel
 		ok := false
-		paths := (&Walker{P: c.P}).FuncRegion(fn)
-		c.paths += len(paths)
-		for _, pa := range paths {
-			var wc *Term
-			for _, e := range pa.Effects {
-				if e.Kind == "call" && e.Fn != nil && strings.HasSuffix(fnName(e.Fn), "context.WithCancel") {
-					wc = e.Res
-				}
-			}
-			// worker closure binds that ctx
-			for _, e := range pa.Effects {
-				if e.Kind == "go" && e.Fn != nil && fnName(e.Fn) == "_lister.list$2" && wc != nil {
+		worker := pickSub(goBodiesOf(fn), func(s *subFunc) bool { return len(callsNamed(s.Fn, "_lister.executeList")) > 0 })
+		if worker != nil {
+			c.useFn(worker.Fn)
+			calls := callsNamed(worker.Fn, "_lister.executeList")
+			if len(calls) == 1 && len(calls[0].Common().Args) == 2 {
+				if o := worker.outer(calls[0].Common().Args[1]); o != nil && isWithCancelPart(storedValue(o), 0) {
 					ok = true
-				}
-			}
-		}
-		// in the worker, executeList's ctx argument is the captured ctx
-		if cl := c.P.Func("", "_lister.list$2"); cl != nil && ok {
-			ok = false
-			for _, b := range cl.Blocks {
-				for _, in := range b.Instrs {
-					if call, okc := in.(*ssa.Call); okc && call.Call.StaticCallee() != nil && fnName(call.Call.StaticCallee()) == "_lister.executeList" {
-						if u, oku := call.Call.Args[1].(*ssa.UnOp); oku {
-							if _, okf := u.X.(*ssa.FreeVar); okf {
-								ok = true
-							}
-						} else if _, okf := call.Call.Args[1].(*ssa.FreeVar); okf {
-							ok = true
-						}
-					}
 				}
 			}
 		}
@@ -1191,74 +1255,144 @@ func checkConsumerBuffers(c *Ctx) {
 
 // isLifetimeTie: f is a closure started with `go` by its parent, the wait is
 // on Done() of a captured variable, and the parent returns that variable.
-func isLifetimeTie(f *ssa.Function, u *ssa.UnOp) bool {
-	par := f.Parent()
-	if par == nil {
-		return false
+// derefCell: a captured variable is a cell; the value is what was stored into it.
+func derefCell(v ssa.Value) ssa.Value {
+	if u, ok := v.(*ssa.UnOp); ok && u.Op == token.MUL {
+		return u.X
 	}
-	rv, m := chanFromMethod(u.X)
-	if m != "Done" || rv == nil {
-		return false
-	}
-	// receiver is (a load of) a free variable
-	var fv *ssa.FreeVar
-	switch x := rv.(type) {
-	case *ssa.FreeVar:
-		fv = x
-	case *ssa.UnOp:
-		if x.Op == token.MUL {
-			fv, _ = x.X.(*ssa.FreeVar)
+	return v
+}
+
+// returnsValue: some return of fn yields v (or a load of the cell v, or of the cell v was loaded from).
+func returnsValue(fn *ssa.Function, v ssa.Value) bool {
+	for _, b := range fn.Blocks {
+		r, ok := b.Instrs[len(b.Instrs)-1].(*ssa.Return)
+		if !ok {
+			continue
 		}
-	}
-	if fv == nil {
-		return false
-	}
-	idx := -1
-	for i, v := range f.FreeVars {
-		if v == fv {
-			idx = i
-		}
-	}
-	var bound ssa.Value
-	spawned := false
-	for _, b := range par.Blocks {
-		for _, in := range b.Instrs {
-			if g, ok := in.(*ssa.Go); ok {
-				if mc, ok := g.Call.Value.(*ssa.MakeClosure); ok && mc.Fn == f && idx >= 0 && idx < len(mc.Bindings) {
-					bound, spawned = mc.Bindings[idx], true
-				}
+		for _, res := range r.Results {
+			x := stripIface(res)
+			if x == v {
+				return true
 			}
-		}
-	}
-	if !spawned || bound == nil {
-		return false
-	}
-	// the parent returns the bound variable (or a load of it)
-	for _, b := range par.Blocks {
-		if r, ok := b.Instrs[len(b.Instrs)-1].(*ssa.Return); ok {
-			for _, res := range r.Results {
-				x := res
-				for {
-					switch y := x.(type) {
-					case *ssa.MakeInterface:
-						x = y.X
-						continue
-					case *ssa.ChangeInterface:
-						x = y.X
-						continue
-					}
-					break
-				}
-				if x == bound {
+			if ld, ok := x.(*ssa.UnOp); ok && ld.Op == token.MUL {
+				if ld.X == v {
 					return true
 				}
-				if ld, ok := x.(*ssa.UnOp); ok && ld.Op == token.MUL && ld.X == bound {
+				if lv, ok := v.(*ssa.UnOp); ok && lv.Op == token.MUL && lv.X == ld.X {
 					return true
 				}
 			}
 		}
 	}
 	return false
+}
+
+func stripIface(x ssa.Value) ssa.Value {
+	for {
+		switch y := x.(type) {
+		case *ssa.MakeInterface:
+			x = y.X
+			continue
+		case *ssa.ChangeInterface:
+			x = y.X
+			continue
+		}
+		return x
+	}
+}
+
+func isLifetimeTie(f *ssa.Function, u *ssa.UnOp) bool {
+	rv, m := chanFromMethod(u.X)
+	if m != "Done" || rv == nil {
+		return false
+	}
+	// every place that starts f: go statements on a closure, or on the named function
+	var starts []*subFunc
+	if par := f.Parent(); par != nil {
+		for _, sf := range closuresOf(par) {
+			if sf.Fn == f {
+				if sf.Go == nil {
+					return false
+				}
+				starts = append(starts, sf)
+			}
+		}
+	} else if curProg != nil {
+		for _, site := range curProg.callersOf(f) {
+			g, ok := site.In.(*ssa.Go)
+			if !ok || site.Kind != "go" {
+				return false
+			}
+			starts = append(starts, &subFunc{Fn: f, Go: g, Args: g.Call.Args})
+		}
+	}
+	if len(starts) == 0 {
+		return false
+	}
+	for _, sf := range starts {
+		bound := sf.outer(rv)
+		if bound == nil {
+			return false
+		}
+		bound = stripIface(bound)
+		// the spawning function returns the bound variable (or a load of it); when the spawner is a
+		// private helper handed the value as a parameter (`closeWith(result, dep)`), its callers do
+		par := sf.Go.Parent()
+		if pv, ok := storedValue(derefCell(bound)).(*ssa.Parameter); ok && par.Parent() == nil && par.Object() != nil && !par.Object().Exported() && curProg != nil {
+			idx := -1
+			for i, fp := range par.Params {
+				if fp == pv {
+					idx = i
+				}
+			}
+			sites := curProg.callersOf(par)
+			if idx < 0 || len(sites) == 0 {
+				return false
+			}
+			for _, site := range sites {
+				call, ok := site.In.(*ssa.Call)
+				if !ok || idx >= len(call.Call.Args) || !returnsValue(site.Fn, stripIface(call.Call.Args[idx])) {
+					return false
+				}
+			}
+			continue
+		}
+		returned := false
+		for _, b := range par.Blocks {
+			if r, ok := b.Instrs[len(b.Instrs)-1].(*ssa.Return); ok {
+				for _, res := range r.Results {
+					x := res
+					for {
+						switch y := x.(type) {
+						case *ssa.MakeInterface:
+							x = y.X
+							continue
+						case *ssa.ChangeInterface:
+							x = y.X
+							continue
+						}
+						break
+					}
+					if x == bound {
+						returned = true
+					}
+					if ld, ok := x.(*ssa.UnOp); ok && ld.Op == token.MUL && ld.X == bound {
+						returned = true
+					}
+					if ld, ok := bound.(*ssa.UnOp); ok && ld.Op == token.MUL {
+						if l2, ok := x.(*ssa.UnOp); ok && l2.Op == token.MUL && l2.X == ld.X {
+							returned = true
+						}
+					}
+				}
+			}
+		}
+		if !returned {
+			return false
+		}
+	}
+	return true
 }
 
 // checkCallersVTA (thorough tier): with the VTA call graph (interface and
@@ -1550,6 +1684,14 @@ func checkNotRunningErrors(c *Ctx) {
 					if st.Send != nil {
 						arm = "sent"
 					} else if st.Chan.K == "invoke" && st.Chan.S == "ShuttingDown" {
+						arm = "stopping"
+					}
+				}
+				// a guard clause that has already seen the stopping channel closed (non-blocking
+				// poll) may answer "not running" without entering the request select: the select
+				// could have answered the same
+				if e.Kind == "select" && !e.Blocking && e.Arm >= 0 && arm == "" {
+					if st := e.Sel[e.Arm]; st.Send == nil && st.Chan.K == "invoke" && st.Chan.S == "ShuttingDown" {
 						arm = "stopping"
 					}
 				}
